@@ -181,8 +181,14 @@ func c10(c *ctx) {
 	nMut := tierN(c, 1500, 30000)
 	nRand := tierN(c, 200, 3000)
 
+	// --replay: a witness with a "text" re-runs monitors 2/3 on that text only, a witness with a grammar/input
+	// re-runs monitor 1 on that case only
+	replayText, replayIsText := "", false
+	if c.replay != "" {
+		replayText, replayIsText = witnessString(c.replay, "text")
+	}
 	// ---------- monitor 1: meaning through behaviour (spelling variants, generated parsers vs reference) ----------
-	{
+	if !replayIsText {
 		n := tierN(c, 90, 1200)
 		var cases []*gcase
 		esc := []rune("ab'\"[]-\\^\n\t\r\x1b\x07\x7féÿ\u0080AZ09 ")
@@ -232,6 +238,12 @@ func c10(c *ctx) {
 	}
 
 	texts := grammarTexts(c, r, nValid, nMut, nRand)
+	if c.replay != "" {
+		texts = nil
+		if replayIsText {
+			texts = []txt{{replayText, "replay"}}
+		}
+	}
 
 	// ---------- monitors 2 and 3: tree equality / rejection, against the real front end ----------
 	fe := buildFront(c, filepath.Join(c.env.Repo, "peg.peg.go"), false, "c10")
@@ -313,7 +325,7 @@ func c10(c *ctx) {
 	}
 	ncli := 0
 	for i, t := range texts {
-		if t.kind == "valid" || t.kind == "shipped" || i%tierN(c, 12, 40) != 0 {
+		if t.kind == "valid" || t.kind == "shipped" || (i%tierN(c, 12, 40) != 0 && t.kind != "replay") {
 			continue
 		}
 		_, rerr := pegsyntax.Parse(t.text)
